@@ -61,6 +61,9 @@ type Val struct {
 	S string `json:"s,omitempty"`
 	A []Val  `json:"a,omitempty"`
 	O []KV   `json:"o,omitempty"`
+	// X is the exact Go value a decode must return (t = "exact", BSON-only
+	// primitive types); computed by models at check time, never stored.
+	X interface{} `json:"-"`
 }
 
 // KV is one member of an object (keys are distinct within an object).
@@ -94,6 +97,9 @@ type Case struct {
 	Helper string `json:"helper,omitempty"` // helper type the document is decoded into
 	F      *Feat  `json:"f,omitempty"`
 	FC     *FColl `json:"fc,omitempty"`
+	// Large describes a structured big input of the size ladder (kind "large");
+	// the input itself is rebuilt from the description.
+	Large *LargeCase `json:"large,omitempty"`
 }
 
 func (v Val) toGo() interface{} {
@@ -368,6 +374,11 @@ func eqVal(path string, want Val, got interface{}) error {
 		}
 		if w.Cmp(g) != 0 {
 			return fmt.Errorf("%s: want number %s, got %T %v", path, w.Text('g', 20), got, got)
+		}
+		return nil
+	case "exact":
+		if !reflect.DeepEqual(got, want.X) {
+			return fmt.Errorf("%s: want %T %v, got %T %v", path, want.X, want.X, got, got)
 		}
 		return nil
 	case "array":
@@ -757,24 +768,53 @@ func sameBytes(what string, a, b []byte) error {
 
 // ---------------------------------------------------------------- the oracles
 
-func checkCase(c Case) error {
+func checkCase(c Case) error { return checkCaseOpt(c, nil) }
+
+// checkOpt: lite drops the redundant entry points (json.Marshal/json.Unmarshal
+// twins, the second and third re-marshal) for the large cases of the size
+// ladder; every oracle (a)-(d) is still evaluated once. The document sizes are
+// reported back for the evidence.
+type checkOpt struct {
+	lite                 bool
+	jsonBytes, bsonBytes int
+}
+
+func (o *checkOpt) isLite() bool { return o != nil && o.lite }
+
+func (o *checkOpt) sizes(j, b int) {
+	if o != nil {
+		if j > 0 {
+			o.jsonBytes = j
+		}
+		if b > 0 {
+			o.bsonBytes = b
+		}
+	}
+}
+
+func checkCaseOpt(c Case, o *checkOpt) error {
 	switch c.Kind {
 	case "geometry":
-		return checkGeometry(c.G.V, false)
+		return checkGeometry(c.G.V, false, o)
 	case "direct":
-		return checkGeometry(c.G.V, true)
+		return checkGeometry(c.G.V, true, o)
 	case "feature":
 		if c.F == nil {
 			return fmt.Errorf("bad case: no feature")
 		}
-		return checkFeature(*c.F)
+		return checkFeature(*c.F, o)
 	case "fc":
 		if c.FC == nil {
 			return fmt.Errorf("bad case: no feature collection")
 		}
-		return checkFC(*c.FC)
+		return checkFC(*c.FC, o)
 	case "helper":
 		return checkHelper(c.G.V, c.Helper)
+	case "large":
+		if c.Large == nil {
+			return fmt.Errorf("bad case: no large description")
+		}
+		return checkLarge(*c.Large, nil)
 	}
 	return fmt.Errorf("bad case kind %q", c.Kind)
 }
@@ -782,7 +822,7 @@ func checkCase(c Case) error {
 // checkGeometry: bare geometry through geojson.NewGeometry (direct == false)
 // or through a hand-built &geojson.Geometry{Coordinates: g} (direct == true,
 // the path newGeometryMarshallDoc converts Ring/Bound/Collection on).
-func checkGeometry(g orb.Geometry, direct bool) error {
+func checkGeometry(g orb.Geometry, direct bool, o *checkOpt) error {
 	want := canon(g)
 	mk := func() *geojson.Geometry {
 		if direct {
@@ -794,7 +834,9 @@ func checkGeometry(g orb.Geometry, direct bool) error {
 	if err != nil {
 		return fmt.Errorf("MarshalJSON: %v", err)
 	}
-	if mm, err := json.Marshal(mk()); err != nil {
+	o.sizes(len(m1), 0)
+	if o.isLite() {
+	} else if mm, err := json.Marshal(mk()); err != nil {
 		return fmt.Errorf("json.Marshal: %v", err)
 	} else if err := sameBytes("json.Marshal(geometry) vs geometry.MarshalJSON()", mm, m1); err != nil {
 		return err
@@ -838,12 +880,14 @@ func checkGeometry(g orb.Geometry, direct bool) error {
 	if dec.Type != typeName(want) {
 		return fmt.Errorf("JSON round trip: decoded Type %q, want %q", dec.Type, typeName(want))
 	}
-	dec2 := &geojson.Geometry{}
-	if err := json.Unmarshal(m1, dec2); err != nil {
-		return fmt.Errorf("json.Unmarshal into *Geometry: %v", err)
-	}
-	if err := decodedGeom(want, dec2); err != nil {
-		return fmt.Errorf("json.Unmarshal round trip: %v", err)
+	if !o.isLite() {
+		dec2 := &geojson.Geometry{}
+		if err := json.Unmarshal(m1, dec2); err != nil {
+			return fmt.Errorf("json.Unmarshal into *Geometry: %v", err)
+		}
+		if err := decodedGeom(want, dec2); err != nil {
+			return fmt.Errorf("json.Unmarshal round trip: %v", err)
+		}
 	}
 	// fixed point
 	m2, err := dec.MarshalJSON()
@@ -853,12 +897,14 @@ func checkGeometry(g orb.Geometry, direct bool) error {
 	if err := sameBytes("JSON fixed point (decoded *Geometry re-marshalled)", m1, m2); err != nil {
 		return err
 	}
-	m3, err := geojson.NewGeometry(dec.Geometry()).MarshalJSON()
-	if err != nil {
-		return fmt.Errorf("re-marshal via NewGeometry: %v", err)
-	}
-	if err := sameBytes("JSON fixed point (NewGeometry(decoded.Geometry()))", m1, m3); err != nil {
-		return err
+	if !o.isLite() {
+		m3, err := geojson.NewGeometry(dec.Geometry()).MarshalJSON()
+		if err != nil {
+			return fmt.Errorf("re-marshal via NewGeometry: %v", err)
+		}
+		if err := sameBytes("JSON fixed point (NewGeometry(decoded.Geometry()))", m1, m3); err != nil {
+			return err
+		}
 	}
 
 	// BSON
@@ -866,6 +912,7 @@ func checkGeometry(g orb.Geometry, direct bool) error {
 	if err != nil {
 		return fmt.Errorf("bson.Marshal: %v", err)
 	}
+	o.sizes(0, len(b))
 	bd := &geojson.Geometry{}
 	if err := bson.Unmarshal(b, bd); err != nil {
 		return fmt.Errorf("bson.Unmarshal(%s): %v", clip([]byte(bson.Raw(b).String())), err)
@@ -879,6 +926,9 @@ func checkGeometry(g orb.Geometry, direct bool) error {
 	if t, ok := bson.Raw(b).Lookup("type").StringValueOK(); !ok || t != typeName(want) {
 		return fmt.Errorf("BSON document \"type\" is %q, want %q", t, typeName(want))
 	}
+	if o.isLite() {
+		return nil
+	}
 	m4, err := bd.MarshalJSON()
 	if err != nil {
 		return fmt.Errorf("JSON of BSON-decoded geometry: %v", err)
@@ -886,12 +936,14 @@ func checkGeometry(g orb.Geometry, direct bool) error {
 	return sameBytes("JSON/BSON differential (JSON of the BSON-decoded geometry vs JSON of the input)", m1, m4)
 }
 
-func checkFeature(f Feat) error {
+func checkFeature(f Feat, o *checkOpt) error {
 	m1, err := f.build().MarshalJSON()
 	if err != nil {
 		return fmt.Errorf("MarshalJSON: %v", err)
 	}
-	if mm, err := json.Marshal(f.build()); err != nil {
+	o.sizes(len(m1), 0)
+	if o.isLite() {
+	} else if mm, err := json.Marshal(f.build()); err != nil {
 		return fmt.Errorf("json.Marshal: %v", err)
 	} else if err := sameBytes("json.Marshal(feature) vs feature.MarshalJSON()", mm, m1); err != nil {
 		return err
@@ -910,12 +962,14 @@ func checkFeature(f Feat) error {
 	if err := eqFeature("JSON feature", f, dec); err != nil {
 		return fmt.Errorf("%v; text %s", err, clip(m1))
 	}
-	dec2 := &geojson.Feature{}
-	if err := json.Unmarshal(m1, dec2); err != nil {
-		return fmt.Errorf("json.Unmarshal into *Feature: %v", err)
-	}
-	if err := eqFeature("json.Unmarshal feature", f, dec2); err != nil {
-		return err
+	if !o.isLite() {
+		dec2 := &geojson.Feature{}
+		if err := json.Unmarshal(m1, dec2); err != nil {
+			return fmt.Errorf("json.Unmarshal into *Feature: %v", err)
+		}
+		if err := eqFeature("json.Unmarshal feature", f, dec2); err != nil {
+			return err
+		}
 	}
 	m2, err := dec.MarshalJSON()
 	if err != nil {
@@ -928,6 +982,7 @@ func checkFeature(f Feat) error {
 	if err != nil {
 		return fmt.Errorf("bson.Marshal: %v", err)
 	}
+	o.sizes(0, len(b))
 	bd := &geojson.Feature{}
 	if err := bson.Unmarshal(b, bd); err != nil {
 		return fmt.Errorf("bson.Unmarshal(%s): %v", clip([]byte(bson.Raw(b).String())), err)
@@ -938,12 +993,14 @@ func checkFeature(f Feat) error {
 	return nil
 }
 
-func checkFC(c FColl) error {
+func checkFC(c FColl, o *checkOpt) error {
 	m1, err := c.build().MarshalJSON()
 	if err != nil {
 		return fmt.Errorf("MarshalJSON: %v", err)
 	}
-	if mm, err := json.Marshal(c.build()); err != nil {
+	o.sizes(len(m1), 0)
+	if o.isLite() {
+	} else if mm, err := json.Marshal(c.build()); err != nil {
 		return fmt.Errorf("json.Marshal: %v", err)
 	} else if err := sameBytes("json.Marshal(fc) vs fc.MarshalJSON()", mm, m1); err != nil {
 		return err
@@ -962,12 +1019,14 @@ func checkFC(c FColl) error {
 	if err := eqFC("JSON fc", c, dec); err != nil {
 		return fmt.Errorf("%v; text %s", err, clip(m1))
 	}
-	dec2 := &geojson.FeatureCollection{}
-	if err := json.Unmarshal(m1, dec2); err != nil {
-		return fmt.Errorf("json.Unmarshal into *FeatureCollection: %v", err)
-	}
-	if err := eqFC("json.Unmarshal fc", c, dec2); err != nil {
-		return err
+	if !o.isLite() {
+		dec2 := &geojson.FeatureCollection{}
+		if err := json.Unmarshal(m1, dec2); err != nil {
+			return fmt.Errorf("json.Unmarshal into *FeatureCollection: %v", err)
+		}
+		if err := eqFC("json.Unmarshal fc", c, dec2); err != nil {
+			return err
+		}
 	}
 	m2, err := dec.MarshalJSON()
 	if err != nil {
@@ -980,6 +1039,7 @@ func checkFC(c FColl) error {
 	if err != nil {
 		return fmt.Errorf("bson.Marshal: %v", err)
 	}
+	o.sizes(0, len(b))
 	bd := &geojson.FeatureCollection{}
 	if err := bson.Unmarshal(b, bd); err != nil {
 		return fmt.Errorf("bson.Unmarshal(%s): %v", clip([]byte(bson.Raw(b).String())), err)
@@ -1169,6 +1229,8 @@ var hostileInts = []int64{0, 1, -1, 7, 255, 1<<31 - 1, 1 << 31, -(1 << 31), -(1 
 var hostileStrings = []string{
 	"", "a", "type", "bbox", "features", "Type", "TYPE", "BBox", "Bbox", "Features", "crs", "coordinates", "geometry", "geometries", "properties", "id", "Feature",
 	"a.b", "$set", "<&>", "  ", "é", "日本語", "😀", "\x00", "a\x00b", "\x7f", "\"\\/", "\n\t\r", " ", "null", "0", "�", "\U0010ffff",
+	// look-alikes of characters that storage layers escape in keys, and the escapes themselves
+	".", "$", "\uff0e", "\uff04", "a\uff0eb", "\uff04set", "%2E", "%24", "~0", "~1", "\\u002e", "_$", "..", "$$", "\u2024", "\ufe52",
 }
 
 func genString(t *rapid.T, label string, key bool) string {
@@ -1334,6 +1396,9 @@ func genFCG(t *rapid.T, gfn func(*rapid.T) orb.Geometry) FColl {
 func drawCase(t *rapid.T) Case { return genCase(t) }
 
 func genCase(t *rapid.T) Case {
+	if rapid.IntRange(0, 511).Draw(t, "large") == 511 {
+		return genLargeCase(t) // rare: a structured big input from the lower rungs of the size ladder
+	}
 	// rapid's IntRange favours small values, so the composite kinds come first.
 	switch k := rapid.IntRange(0, 19).Draw(t, "kind"); {
 	case k < 5:
@@ -1461,6 +1526,9 @@ func (tr *traits) feat(f Feat) {
 
 // nonTrivialCase applies the package's non-trivial rule without counting anything.
 func nonTrivialCase(c Case) bool {
+	if c.Kind == "large" {
+		return true
+	}
 	var tr traits
 	switch c.Kind {
 	case "geometry", "direct", "helper":
@@ -1482,6 +1550,12 @@ func nonTrivialCase(c Case) bool {
 }
 
 func classify(c Case) {
+	if c.Kind == "large" {
+		stats.Class("kind:large")
+		stats.Class("large(random):" + c.Large.Dim)
+		stats.NonTrivial("large:" + gen.JSON(c.Large))
+		return
+	}
 	var tr traits
 	stats.Class("kind:" + c.Kind)
 	switch c.Kind {
@@ -1579,7 +1653,7 @@ func assumptions() {
 
 func TestPropRoundTrip(t *testing.T) {
 	assumptions()
-	stats.Check(t, 80000, 1600000, func(rt *rapid.T) {
+	stats.Check(t, 40000, 1200000, func(rt *rapid.T) {
 		c := drawCase(rt)
 		classify(c)
 		stats.Try(rt, "TestPropRoundTrip", c, func() error { return checkCase(c) })
@@ -1754,6 +1828,66 @@ func TestReplay(t *testing.T) {
 	name, raw, ok := stats.Replaying()
 	if !ok {
 		t.Skip("no replay file")
+	}
+	switch {
+	case strings.Contains(name, "Large"):
+		var c LargeCase
+		if err := json.Unmarshal(raw, &c); err != nil {
+			t.Fatal(err)
+		}
+		if err := stats.Guard(func() error { return checkLarge(c, nil) }); err != nil {
+			t.Fatalf("replayed large case still fails: %v", err)
+		}
+		return
+	case strings.Contains(name, "BeyondJSONDepth"):
+		t.Skip("diagnostic case, see TestEnumBeyondJSONDepth")
+	case strings.Contains(name, "TypedValues"):
+		var c TypedCase
+		if err := json.Unmarshal(raw, &c); err != nil {
+			t.Fatal(err)
+		}
+		if err := stats.Guard(func() error { return checkTyped(c) }); err != nil {
+			t.Fatalf("replayed typed-values case still fails: %v", err)
+		}
+		return
+	case strings.Contains(name, "History"):
+		var c HistCase
+		if err := json.Unmarshal(raw, &c); err != nil {
+			t.Fatal(err)
+		}
+		if err := stats.Guard(func() error { return checkHist(c) }); err != nil {
+			t.Fatalf("replayed history still fails: %v", err)
+		}
+		return
+	case strings.Contains(name, "Alias"):
+		var c AliasCase
+		if err := json.Unmarshal(raw, &c); err != nil {
+			t.Fatal(err)
+		}
+		if err := stats.Guard(func() error { return checkAlias(c) }); err != nil {
+			t.Fatalf("replayed aliased-input case still fails: %v", err)
+		}
+		return
+	case name == "TestPropSharedInput":
+		var c SharedCase
+		if err := json.Unmarshal(raw, &c); err != nil {
+			t.Fatal(err)
+		}
+		for k := 0; k < 20; k++ {
+			if err := stats.Guard(func() error { return checkShared(c, 100) }); err != nil {
+				t.Fatalf("replayed shared-input case still fails: %v", err)
+			}
+		}
+		return
+	case name == "TestKnownGeometryReuse":
+		for _, w := range []string{witnessGeometryReuse(), witnessBSONNilMember()} {
+			if w != "" {
+				t.Fatalf("witness still fails: %s", w)
+			}
+		}
+		return
+	case name == "TestEnumMustDefaults":
+		t.Skip("re-run TestEnumMustDefaults itself (its cases are indices)")
 	}
 	if name == "TestPropConcurrent" {
 		var g []Item
